@@ -449,16 +449,20 @@ class JSRegExp(JSObject):
 
     def test(self, string: str) -> bool:
         """Test if the pattern matches the string."""
+        return self.builtin_exec(string) is not None
+
+    def builtin_exec(self, string: str):
+        """RegExpBuiltinExec: the raw match (or None); lastIndex is read and
+        written as the flags demand.  exec, test and the string methods that
+        take a regex all go through here."""
         self._load_last_index()
-        result = self._internal.test(string)
+        result = self._internal.exec(string)
         self._store_last_index()
         return result
 
     def exec(self, string: str):
         """Execute a search for a match."""
-        self._load_last_index()
-        result = self._internal.exec(string)
-        self._store_last_index()
+        result = self.builtin_exec(string)
 
         if result is None:
             return NULL
